@@ -203,7 +203,7 @@ def roots : List Root := [
   ⟨[1], false, true, true, [1], []⟩,  -- 7 collector.startCollector#1 (worker conductor.go:301) runWorker(colCtx, col.stopper, func(ctx context.Context) {
   ⟨[1], false, true, true, [1], []⟩,  -- 8 audition.startAudition#1 (worker conductor.go:281) runWorker(auCtx, au.stopper, func(ctx context.Context) {
   ⟨[1], true, false, true, [1], []⟩,  -- 9 app.runForAllActors#1[runCleanup$1] (worker conductor.go:376) runWorker(actCtx, ap.stopper, func(ctx context.Context) {
-  ⟨[5], true, false, true, [5], []⟩,  -- 10 prompter.runScene#1 (task prompt.go:208) if err := runAsyncTask(lineCtx, pr.stopper, func(ctx context.Context) {
+  ⟨[5], true, false, true, [5], []⟩,  -- 10 prompter.runScene#1 (task prompt.go:209) if err := runAsyncTask(lineCtx, pr.stopper, func(ctx context.Context) {
   ⟨[6], true, false, true, [6], []⟩,  -- 11 spotMgr.manageSpotlights#1 (worker spotlight.go:74) runWorker(spotCtx, spm.stopper, func(ctx context.Context) {
   ⟨[9, 10], false, false, true, [9, 10], []⟩,  -- 12 actor.runActorCommandWithConsumer#1[runActorCommand$1] (go commands.go:157) go func() {
   ⟨[9, 10], true, false, false, [], []⟩,  -- 13 actor.runActorCommandWithConsumer#2[runActorCommand$1] (go commands.go:227) go func() {
@@ -735,13 +735,13 @@ def g6 : List Access := [
 /-- actionReport.failOk -/
 def g7 : List Access := [
   A 7 7 false false [] true [],  -- collector.collectActionReport ? reflect
-  A 10 7 true false [] true [(13, .mid), (14, .mid)]  -- prompter.runLine prompt.go:263 
+  A 10 7 true false [] true [(13, .mid), (14, .mid)]  -- prompter.runLine prompt.go:264 
 ]
 
 /-- actor.actionScripts[] -/
 def g8 : List Access := [
   A 0 8 true false [] false [(1, .pre), (2, .pre), (3, .pre), (4, .pre)],  -- actor.prepareActionCommands commands.go:283 
-  A 10 8 false false [] true [(13, .mid), (14, .mid)]  -- actor.runAction prompt.go:338 
+  A 10 8 false false [] true [(13, .mid), (14, .mid)]  -- actor.runAction prompt.go:339 
 ]
 
 /-- actor.cleanupScript -/
@@ -906,8 +906,8 @@ def g29 : List Access := [
 def g30 : List Access := [
   A 0 30 false false [] false [(1, .post), (2, .mid), (3, .mid), (4, .mid)],  -- app.assemble result.go:197 
   A 5 30 true false [] true [(10, .pre)],  -- prompter.prompt prompt.go:49 
-  A 5 30 false false [] true [],  -- prompter.prompt prompt.go:135 
-  A 5 30 true false [] true []  -- prompter.prompt prompt.go:155 
+  A 5 30 false false [] true [],  -- prompter.prompt prompt.go:136 
+  A 5 30 true false [] true []  -- prompter.prompt prompt.go:156 
 ]
 
 /-- auditionState.auditorStates[] -/
